@@ -283,9 +283,15 @@ impl Engine {
     /// This is useful for streaming or real-time synthesis.
     pub fn generator(&self, labels: impl ToLabels) -> Result<SpeechGenerator, EngineError> {
         let labels = labels.to_labels(&self.condition)?;
+        // the low-pass (mixed excitation) stream is optional
+        let nlpf = if self.voices.global_metadata().num_streams > 2 {
+            self.voices.stream_metadata(2).vector_length
+        } else {
+            0
+        };
         let vocoder = Vocoder::new(
             self.voices.stream_metadata(0).vector_length,
-            self.voices.stream_metadata(2).vector_length,
+            nlpf,
             self.condition.stage,
             self.condition.use_log_gain,
             self.condition.sampling_frequency,
